@@ -82,9 +82,19 @@ func genTriple(t *rapid.T) Triple {
 
 var specC02Laws = Register(&Spec[Triple]{
 	Prop: "C02", Name: "laws",
-	Rule: "triples drawn with replacement from generated pools of 3..10 versions over a tiny token alphabet {0,1,00,01,3,10,20,a,b,~,+,.,-} plus four digit runs around and beyond 2^64 (epochs 0/1), enriched with respellings of existing members (leading zeros, revision 0 vs none) and with full-alphabet versions; oracle = Compare(x,x)==0, sign antisymmetry, transitivity of <=, congruence of ~ in both argument positions. Non-trivial: the triple contains an equivalent-but-textually-different pair, or three pairwise inequivalent members; distinct by (a,b,c).",
+	Rule: "triples drawn with replacement from generated pools of 3..10 versions over a tiny token alphabet {0,1,00,01,3,10,20,a,b,~,+,.,-} plus four digit runs around and beyond 2^64 (epochs 0/1), enriched with respellings of existing members (leading zeros, revision 0 vs none) and with full-alphabet versions; about half of the operands are parser-made values (of another text) whose exported members were assigned afterwards; oracle = Compare(x,x)==0, sign antisymmetry, transitivity of <=, congruence of ~ in both argument positions. Non-trivial: the triple contains an equivalent-but-textually-different pair, or three pairwise inequivalent members; distinct by (a,b,c).",
 	Check: func(c Triple, r *Recorder) error {
 		a, b, cc := c.A.ver(), c.B.ver(), c.C.ver()
+		// (some operands are parser-made values whose members were assigned afterwards)
+		if len(c.A.key())%2 == 1 {
+			a = c.A.verEdited()
+		}
+		if len(c.B.key())%3 == 1 {
+			b = c.B.verEdited()
+		}
+		if len(c.C.key())%2 == 0 {
+			cc = c.C.verEdited()
+		}
 		cmp := func(x, y version.Version) int { return sign(version.Compare(x, y)) }
 		ab, bc, ac := cmp(a, b), cmp(b, cc), cmp(a, cc)
 		eqDiff := (ab == 0 && c.A.key() != c.B.key()) || (bc == 0 && c.B.key() != c.C.key()) || (ac == 0 && c.A.key() != c.C.key())
@@ -216,6 +226,9 @@ var specC02Sort = Register(&Spec[SortCase]{
 		xs := make([]version.Version, len(c.Xs))
 		for i, p := range c.Xs {
 			xs[i] = p.ver()
+			if i%3 == 1 {
+				xs[i] = p.verEdited() // a parser-made value whose members were assigned afterwards
+			}
 		}
 		// classification
 		spell := map[string]bool{}
